@@ -451,8 +451,11 @@ class Lark(Serialize, Generic[_Return_T]):
 
         # If the user asked to invert the priorities, negate them all here.
         if self.options.priority == 'invert':
+            # The alternatives of a rule may share a single options object. Negate each one only once.
+            inverted = set()
             for rule in self.rules:
-                if rule.options.priority is not None:
+                if rule.options.priority is not None and id(rule.options) not in inverted:
+                    inverted.add(id(rule.options))
                     rule.options.priority = -rule.options.priority
             for term in self.terminals:
                 term.priority = -term.priority
